@@ -7,7 +7,7 @@ LEVEL = "exploration"
 RULE = ("simulated scenes that satisfy the premise by construction (asserted per history): 1-5 animals whose bodies (>=30 px, bbox area >= 0.6 b^2) stay within "
         "0.25 b of fixed centres >= 3.5 b apart, per-frame step <= 0.05 b, random per-frame detection order, absences covering fewer than `window` non-empty frames, "
         "newcomers only in frames where every previously seen animal is detected, scores above the new-track threshold; crossed with every tracker configuration "
-        "(2 candidate methods x 2 matchers x 3 feature/score pairs x 2 reductions x window{1,2,3,5} x threshold{0,0.5}). non-trivial = >=2 animals with an order change, "
+        "(2 candidate methods x 2 matchers x 4 feature/score pairs (keypoints+oks, centroids+euclid, bboxes+iou, keypoints+euclid) x 2 reductions x window{1,2,3,5} x threshold{0,0.5}). non-trivial = >=2 animals with an order change, "
         "absence or newcomer; distinct by (presence pattern, order pattern hash, configuration)")
 ASSUMPTIONS = ["all keypoints visible (the premise is about separation and motion)", "a fresh Tracker per history",
                "absence length counted in non-empty frames (the tracker's fixed window only ages on tracked frames)"]
